@@ -114,6 +114,8 @@ func (c *czCase) text() string {
 		return "det cls=" + c.Cls + " hex=" + h
 	case "br":
 		return fmt.Sprintf("br len=%d content=%s pseed=%d src=%s rd=%d", c.Len, c.Content, c.PSeed, c.Src, c.Rd)
+	case "ovl":
+		return fmt.Sprintf("ovl fmt=%s len=%d content=%s pseed=%d rd=%d", c.Fmt, c.Len, c.Content, c.PSeed, c.Rd)
 	case "co":
 		return fmt.Sprintf("co fmt=%s len=%d content=%s pseed=%d path=%s src=%s rd=%d op=%s cls=%s off=%d bit=%d",
 			c.Fmt, c.Len, c.Content, c.PSeed, c.Path, c.Src, c.Rd, c.Op, c.Cls, c.Off, c.Bit)
@@ -836,6 +838,8 @@ func czRunCase(e *czEnv, c *czCase) *czVerdict {
 		return czRunDetect(c)
 	case "br":
 		return czRunBuffered(c)
+	case "ovl":
+		return czRunOverlap(c)
 	}
 	v := &czVerdict{}
 	base := czFmtBase(c.Fmt)
@@ -1518,7 +1522,87 @@ func czGenerate(cfg *Config, rng *Rng) []*czCase {
 		}
 		cases = append(cases, &czCase{Kind: "br", Len: l, Content: "rand", PSeed: rng.next(), Src: czSrcModes[1+rng.intn(4)], Rd: []int{1, 7, 512, 4096, 32768, 65536}[rng.intn(6)]})
 	}
+	// overlapping streams: several streams are opened before any of them is read
+	ovlFmts := []string{"none+none", "none+none+none", "none+gzip-lib+none", "gzip-lib+none", "none+zstd+none+bzip2", "zstd+zstd", "gzip-lib+gzip-lib+none"}
+	for i := 0; i < cfg.count(40, 400); i++ {
+		l := []int{0, 5, 100, 4096, 32767, 32768, 32769, 40000, 70000}[rng.intn(9)]
+		cases = append(cases, &czCase{Kind: "ovl", Fmt: ovlFmts[rng.intn(len(ovlFmts))], Len: l, Content: []string{"text", "rand"}[rng.intn(2)], PSeed: rng.next(),
+			Rd: []int{0, 1, 7, 512, 4096, 32768}[rng.intn(6)]})
+	}
 	return cases
+}
+
+// czRunOverlap: C16 for streams whose lifetimes overlap — every stream is opened (DecompressStream has returned)
+// before the first byte of any of them is read; then they are drained in an order chosen by the seed.  Each must
+// still yield exactly its own payload.
+func czRunOverlap(c *czCase) *czVerdict {
+	v := &czVerdict{}
+	fmts := strings.Split(c.Fmt, "+")
+	type one struct {
+		want []byte
+		rc   io.ReadCloser
+	}
+	var all []one
+	r := &Rng{s: c.PSeed}
+	for k, f := range fmts {
+		p := czPayload(c.Content, c.Len+k, c.PSeed+uint64(k)*977, f == "none")
+		st := czEncode(f, p, c.PSeed+uint64(k))
+		if st.skip != "" || st.prob != "" {
+			v.skipped = true
+			v.keys = append(v.keys, "skipped:ovl")
+			for _, o := range all {
+				o.rc.Close()
+			}
+			return v
+		}
+		rc, err := compression.DecompressStream(czSource(st.data, "chunk", c.PSeed+uint64(k)))
+		if err != nil {
+			v.problem = fmt.Sprintf("overlap (%s): opening stream %d failed: %v", c.Fmt, k, err)
+			return v
+		}
+		all = append(all, one{p, rc})
+	}
+	order := make([]int, len(all))
+	for i := range order {
+		order[i] = i
+	}
+	for i := len(order) - 1; i > 0; i-- {
+		j := r.intn(i + 1)
+		order[i], order[j] = order[j], order[i]
+	}
+	v.compared, v.nontriv = true, c.Len > 0
+	v.keys = append(v.keys, "ovl:"+c.Fmt)
+	for _, k := range order {
+		var got []byte
+		var err error
+		if c.Rd == 0 {
+			got, err = io.ReadAll(all[k].rc)
+		} else {
+			buf := make([]byte, c.Rd)
+			for {
+				n, e := all[k].rc.Read(buf)
+				got = append(got, buf[:n]...)
+				if e == io.EOF {
+					break
+				}
+				if e != nil {
+					err = e
+					break
+				}
+			}
+		}
+		all[k].rc.Close()
+		if v.problem != "" {
+			continue
+		}
+		if err != nil {
+			v.problem = fmt.Sprintf("overlap (%s, %d streams open at once): stream %d failed: %v", c.Fmt, len(all), k, err)
+		} else if !bytes.Equal(got, all[k].want) {
+			v.problem = fmt.Sprintf("overlap (%s, %d streams open at once, drained in order %v): stream %d (%s) returned %d bytes, first difference at %d of %d expected — clean end of stream after wrong bytes",
+				c.Fmt, len(all), order, k, fmts[k], len(got), czFirstDiff(got, all[k].want), len(all[k].want))
+		}
+	}
+	return v
 }
 
 // ---------------------------------------------------------------- driver
@@ -1565,7 +1649,7 @@ func czRunAll(e *czEnv, cases []*czCase) []*czVerdict {
 		for _, p := range []string{"ext", "builtin"} {
 			czSetPath(p, variant)
 			pass(func(c *czCase) bool {
-				if c.Kind == "det" || c.Kind == "br" {
+				if c.Kind == "det" || c.Kind == "br" || c.Kind == "ovl" {
 					return p == "ext" && variant == 0
 				}
 				return c.Path == p && int(c.PSeed>>7)%2 == variant
@@ -1618,7 +1702,7 @@ func runCompress(cfg *Config) *Result {
 		}
 		// run it in the pass its seed selects, with the same spelling of the setting
 		variant := int(c.PSeed>>7) % 2
-		if c.Kind == "det" || c.Kind == "br" {
+		if c.Kind == "det" || c.Kind == "br" || c.Kind == "ovl" {
 			variant = 0
 		}
 		czSetPath(c.Path, variant)
